@@ -313,6 +313,9 @@ def _fold_table(eng, v) -> Dict[str, Tuple[str, bool]]:
     return out
 
 
+UNIMPLEMENTED_EXTENSIONS = {"b64"}  # header parameters that change processing and are implemented by a dedicated path only
+
+
 def r15_3(ctx) -> None:
     eng = ctx.eng
     P = eng.prog
@@ -323,7 +326,15 @@ def r15_3(ctx) -> None:
     def cmp(name, got, want):
         nonlocal n
         n += 1
-        diff = {k: (got.get(k), want.get(k)) for k in set(got) | set(want) if got.get(k) != want.get(k)}
+        # every RFC parameter is registered with the RFC's type and required flag.  Further OPTIONAL parameters with one of the known validators are
+        # harmless for every clause (they are type-checked like the others) - except names whose processing the code path does not implement:
+        # a registered "b64" in an RFC 7515 / 7516 table defeats the crit defence of RFC 7797 (C01 R01.9)
+        diff = {k: (got.get(k), want.get(k)) for k in want if got.get(k) != want.get(k)}
+        for k in set(got) - set(want):
+            v = got[k]
+            harmless = isinstance(v, tuple) and len(v) == 2 and v[1] is False and v[0] in T.VALIDATOR_KEYS.values() and k not in UNIMPLEMENTED_EXTENSIONS
+            if not harmless:
+                diff[k] = (v, None)
         ctx.check(not diff, "R15.3", None, None, name, f"{name} differs from the RFC table: {diff}", f"{len(want)} parameters with validators and required flags",
                   construct=name)
     cmp("JWS_HEADER_REGISTRY", _fold_table(eng, F.module_value(regm, "JWS_HEADER_REGISTRY")), T.JWS_HEADER)
